@@ -79,8 +79,14 @@ func H_c09() {
 
 // H_c09_b64: the real encoding/base64 code on symbolic bytes: DecodeString(EncodeToString(c)) = c.
 func H_c09_b64() {
-	n := verifChoose("n", 7) // lengths 0..6: every padding case twice
-	c := verifBytes("c", 6)[:n]
+	// lengths 0..6 exercise every padding case twice; 7..13 additionally reach the decoder's 8- and
+	// 4-character fast paths (they need >= 8 / >= 4 free bytes in the destination)
+	max := 6
+	if verifParam("b64max") == "13" {
+		max = 13
+	}
+	n := verifChoose("n", max+1)
+	c := verifBytes("c", max)[:n]
 	text := base64.StdEncoding.EncodeToString(c)
 	back, err := base64.StdEncoding.DecodeString(text)
 	verifReach("emitted")
